@@ -125,6 +125,129 @@ static void* signaller_fiber(void* a) {
   return NULL;
 }
 
+// broadcast + late waiter + one signal, all issued without the user mutex (allowed): a crowd of N waits, the broadcaster releases
+// it; a late waiter V registers while the broadcast may still be in progress; a third fiber issues exactly one signal after V is
+// inside fiber_cond_wait. N+1 waits against one broadcast covering >= N of them plus one signal: everybody must return, whatever the
+// interleaving. Nothing is signalled afterwards, so a dropped signal leaves somebody blocked (stranded at quiescence).
+static _Atomic int lb_registered, lb_bcast_started, lb_v_registered, lb_returned;
+static int lb_N;
+static void* lb_crowd(void* a) {
+  fb_slot_t* s = (fb_slot_t*)a;
+  fiber_mutex_lock(&mu);
+  atomic_fetch_add(&lb_registered, 1);
+  FB_BLOCKING(s, "C05 fiber_cond_wait (crowd released by a broadcast)", fiber_cond_wait(&cv, &mu));
+  atomic_fetch_add(&lb_returned, 1);
+  fiber_mutex_unlock(&mu);
+  return NULL;
+}
+static void* lb_broadcaster(void* a) {
+  fb_slot_t* s = (fb_slot_t*)a;
+  while (atomic_load(&lb_registered) < lb_N) fiber_yield();
+  fiber_mutex_lock(&mu);  // every crowd member has released the mutex inside fiber_cond_wait, i.e. is counted
+  fiber_mutex_unlock(&mu);
+  atomic_store(&lb_bcast_started, 1);
+  FB_BLOCKING(s, "C05 fiber_cond_broadcast", fiber_cond_broadcast(&cv));
+  vp_add(c_broadcasts, 1);
+  return NULL;
+}
+static void* lb_victim(void* a) {
+  fb_slot_t* s = (fb_slot_t*)a;
+  while (!atomic_load(&lb_bcast_started)) fiber_yield();
+  fb_spin(&s->rng, 300);
+  fiber_mutex_lock(&mu);
+  atomic_store(&lb_v_registered, 1);
+  FB_BLOCKING(s, "C05 fiber_cond_wait (late waiter owed the single signal or a place in the broadcast)", fiber_cond_wait(&cv, &mu));
+  atomic_fetch_add(&lb_returned, 1);
+  fiber_mutex_unlock(&mu);
+  return NULL;
+}
+static void* lb_signaller(void* a) {
+  fb_slot_t* s = (fb_slot_t*)a;
+  while (!atomic_load(&lb_v_registered)) fiber_yield();
+  fiber_mutex_lock(&mu);  // the late waiter is inside fiber_cond_wait now
+  fiber_mutex_unlock(&mu);
+  FB_BLOCKING(s, "C05 fiber_cond_signal", fiber_cond_signal(&cv));
+  vp_add(c_signals, 1);
+  return NULL;
+}
+static void late_waiter_rounds(uint64_t* rng) {
+  static fb_slot_t* sl[512];
+  const int rounds = 3 + (int)(vp_rand(rng) % 6);
+  int r;
+  for (r = 0; r < rounds && !vp_violation_count(); ++r) {
+    lb_N = 10 + (int)(vp_rand(rng) % 150);
+    atomic_store(&lb_registered, 0);
+    atomic_store(&lb_bcast_started, 0);
+    atomic_store(&lb_v_registered, 0);
+    atomic_store(&lb_returned, 0);
+    fb_slots_reset();
+    int n = 0, i;
+    for (i = 0; i < lb_N; ++i) sl[n++] = fb_spawn(lb_crowd, NULL);
+    sl[n++] = fb_spawn(lb_broadcaster, NULL);
+    sl[n++] = fb_spawn(lb_victim, NULL);
+    sl[n++] = fb_spawn(lb_signaller, NULL);
+    fb_join_all(sl, n);
+    if (atomic_load(&lb_returned) != lb_N + 1)
+      vp_violation("C05", "cond:ledger-unbalanced", "trial %d: %d of %d waits returned in a broadcast + late waiter + signal round", trial, atomic_load(&lb_returned), lb_N + 1);
+    vp_count("cond_late_waiter_rounds", 1);
+    vp_add(c_waits, lb_N + 1);
+  }
+}
+
+// exact hammer: every wait hands out one credit under the user mutex before it waits; a signaller takes a credit under the mutex (so
+// the waiter that gave it is inside fiber_cond_wait and counted) and then signals once, outside the mutex, racing with other
+// registrations. Signals == waits, and every signal finds at least one registered waiter: all waits must return. A signal that
+// gives up (a failed compare-and-swap taken for "no waiter") leaves one wait without its signal for good.
+static long xh_credits;  // under mu
+static _Atomic long xh_returned, xh_target;
+static int xh_waits;
+static void* xh_waiter(void* a) {
+  fb_slot_t* s = (fb_slot_t*)a;
+  int i;
+  for (i = 0; i < xh_waits; ++i) {
+    fiber_mutex_lock(&mu);
+    ++xh_credits;
+    FB_BLOCKING(s, "C05 fiber_cond_wait (one signal is issued for every wait)", fiber_cond_wait(&cv, &mu));
+    fiber_mutex_unlock(&mu);
+    atomic_fetch_add(&xh_returned, 1);
+    vp_add(c_waits, 1);
+  }
+  return NULL;
+}
+static void* xh_signaller(void* a) {
+  fb_slot_t* s = (fb_slot_t*)a;
+  while (atomic_load(&xh_returned) < atomic_load(&xh_target)) {
+    int take = 0;
+    fiber_mutex_lock(&mu);
+    if (xh_credits > 0) {
+      --xh_credits;
+      take = 1;
+    }
+    fiber_mutex_unlock(&mu);
+    if (take) {
+      FB_BLOCKING(s, "C05 fiber_cond_signal", fiber_cond_signal(&cv));
+      vp_add(c_signals, 1);
+    } else {
+      fiber_yield();
+    }
+  }
+  return NULL;
+}
+static void exact_hammer(uint64_t* rng) {
+  static fb_slot_t* sl[128];
+  const int W = 4 + (int)(vp_rand(rng) % 28), S = 2 + (int)(vp_rand(rng) % 3);
+  xh_waits = 100 + (int)(vp_rand(rng) % (unsigned)vp_param("exact_waits", 400));
+  xh_credits = 0;
+  atomic_store(&xh_returned, 0);
+  atomic_store(&xh_target, (long)W * xh_waits);
+  fb_slots_reset();
+  int n = 0, i;
+  for (i = 0; i < W; ++i) sl[n++] = fb_spawn(xh_waiter, NULL);
+  for (i = 0; i < S; ++i) sl[n++] = fb_spawn(xh_signaller, NULL);
+  fb_join_all(sl, n);
+  vp_count("cond_exact_hammer_trials", 1);
+}
+
 void* sy_cond_root(void* x) {
   (void)x;
   const int trials = (int)vp_param("trials", 30);
@@ -154,6 +277,18 @@ void* sy_cond_root(void* x) {
     atomic_store(&occ, 0);
     fiber_mutex_init(&mu);
     fiber_cond_init(&cv);
+    if (trial % 5 == 4 || trial % 5 == 2) {
+      if (trial % 5 == 4) late_waiter_rounds(&rng);
+      else exact_hammer(&rng);
+      if (atomic_load(&cv.waiter_count) != 0)
+        vp_violation("C05", "cond:waiter-count-nonzero", "trial %d: nobody waits but the condition variable counts %ld waiters", trial, (long)atomic_load(&cv.waiter_count));
+      fiber_cond_destroy(&cv);
+      fiber_mutex_destroy(&mu);
+      vp_add(c_trials, 1);
+      vp_case();
+      if (vp_violation_count()) break;
+      continue;
+    }
     fiber_manager_stats_t st0, st1;
     fiber_manager_all_stats(&st0);
     fb_slots_reset();
